@@ -337,7 +337,7 @@ def cmd_expect_update(pids):
     """dev: record, per harness, the named obligations and cover points a passing run must show."""
     import subprocess
     subprocess.run([sys.executable, os.path.join(VERIF, "tools", "gen_index.py"), "--all"], check=True, stdout=subprocess.DEVNULL)
-    INDEX = json.load(open(os.path.join(VERIF, "lib", "harness_index.json")))
+    INDEX = json.load(open(os.path.join(VERIF, ".cache", "harness_index.all.json")))
     b = kanitrack.build()
     if not b["ok"]:
         print("build failed")
